@@ -15,6 +15,10 @@
     D<id> / E<id>                      AddPublisherDecorators / AddSubscriberDecorators (recording decorator number id);
                                        with a trailing `!` the decorator returns an error the first time it is applied
                                        (RunHandlers fails and is called again until it succeeds)
+    T<n>                               Stop() of handler number n (counted from 0 in the order of the h= tokens), waiting until
+                                       it has stopped; it receives nothing afterwards and its name may be used by a handler
+                                       added later - a handler of its own, decorated by the next RunHandlers like any other
+    M<id>                              AddPublisherDecorators(message.MessageTransformPublisherDecorator(no-op)), unrecorded
     K                                  the application puts values of its own into the message context under the PLAIN
                                        STRING keys "handler_name", "publisher_name", "subscriber_name", "subscribe_topic",
                                        "publish_topic" (in a subscriber decorator and in a middleware, i.e. after the router
@@ -76,6 +80,7 @@ structure Req where
   ds   : List Delivery := []
   st   : RSt := {}               -- the model's router state (decorators, started handlers)
   raw  : List RawOp := []        -- the same operations, untouched, for the monitor
+  stopped : List Nat := []       -- handlers (numbers) that were stopped: they receive nothing any more
 
 def refOf (cs : List Char) : Option Ref :=
   match cs with
@@ -121,17 +126,18 @@ def addTok (r : Req) (tok : String) : Option Req :=
       let pt ← strOf pt
       let mw ← natOf mw
       let (_, sn) ← r.subs.find? (·.1 == sub)
-      if r.hs.any (·.name == name) then none else
+      -- names are unique among the handlers that have not been stopped
+      if r.hs.zipIdx.any (fun (h, i) => h.name == name && !r.stopped.contains i) then none else
       let add (h : HCfg) : Req :=
         { r with hs := r.hs ++ [h], st := rstep r.st (.addHandler h), raw := r.raw ++ [.h] }
       match ps with
       | ['n', 'p'] => if pt != "" then none else
-          pure (add ⟨name, sub, st, sn, none, "", disabledPublisherName, mw, true⟩)
-      | ['n', 'i', 'l'] => pure (add ⟨name, sub, st, sn, none, pt, nilName, mw, false⟩)
+          pure (add ⟨name, sub, st, sn, none, "", disabledPublisherName, mw, true, false⟩)
+      | ['n', 'i', 'l'] => pure (add ⟨name, sub, st, sn, none, pt, nilName, mw, false, true⟩)
       | 'p' :: p => do
         let p ← natOf p
         let (_, pn) ← r.pubs.find? (·.1 == p)
-        pure (add ⟨name, sub, st, sn, some p, pt, pn, mw, false⟩)
+        pure (add ⟨name, sub, st, sn, some p, pt, pn, mw, false, false⟩)
       | _ => none
     | _ => none
   | ['d'] :: [body] =>
@@ -159,6 +165,17 @@ def addTok (r : Req) (tok : String) : Option Req :=
       pure { r with ds := r.ds ++ [⟨sub, t, mid, sh, cx, dn⟩] }
     | _ => none
   | [['R', 'U', 'N']] => pure { r with st := rstep r.st .runHandlers, raw := r.raw ++ [.run] }
+  | [('T' :: n)] => do
+    -- Handler.Stop() of handler number n (it must have been started: a RUN after its h= token)
+    let n ← natOf n
+    if n ≥ r.hs.length || r.stopped.contains n then none else
+    match (r.st.hs)[n]? with
+    | some rh => if rh.started then pure { r with stopped := r.stopped ++ [n] } else none
+    | none => none
+  | [('M' :: n)] => do
+    -- watermill's own MessageTransformPublisherDecorator with a transform that changes nothing, not recorded
+    let _ ← natOf n
+    pure r
   | [['K']] => pure r      -- application values under plain string keys: invisible to the router's accessors
   | [('D' :: id)] => do
     -- `D<id>!`: the decorator fails the first time it is applied; RunHandlers reports the error and is retried –
@@ -206,8 +223,11 @@ def callStr (path : List Nat) (c : PubCall) : String :=
     ",".intercalate ((c.items.zip c.owners).map fun ((r, x), o) =>
       refStr r ++ "~u~" ++ ctx5Str x ++ "~" ++ (match o with | some y => refStr y | none => "-")) ++ "]"
 
-def resultStr (hs : List HCfg) (rh : RH) (r : Result) : String :=
-  let fnIdx := match hs.findIdx? (·.name == r.fn) with | some i => toString i | none => "?"
+def resultStr (hs : List HCfg) (self : Nat) (rh : RH) (r : Result) : String :=
+  -- the number of the handler whose function the model invoked: `self` when that is the handler's own name (always,
+  -- theorem handleOne_fn); names may repeat once a handler has been stopped, so the number is not looked up by name alone
+  let fnIdx := if (hs[self]?.map (·.name)) == some r.fn then toString self else
+    match hs.findIdx? (·.name == r.fn) with | some i => toString i | none => "?"
   "/".intercalate [toString r.mid, fnIdx, ctx5Str r.inCtx,
     (match r.settle with | .ack => "A" | .nack => "N"),
     (if r.calls.isEmpty then "-" else "+".intercalate (r.calls.map (callStr rh.pubPath))),
@@ -218,8 +238,8 @@ def model (q : Req) : String :=
   let subs := "subs=" ++ toString calls.length ++ ":" ++
     ",".intercalate (q.hs.map fun h => toString (calls.count (h.sub, h.subTopic)))
   let st := rstep q.st .runHandlers     -- whatever is not started yet is started before the messages arrive
-  let blocks := (((route q.hs q.ds).zip st.hs).zipIdx.filter fun (((_, rs), _), _) => !rs.isEmpty).map
-    fun (((_, rs), rh), i) => "H" ++ toString i ++ ":" ++ ";".intercalate (rs.map (resultStr q.hs rh))
+  let blocks := (((route q.hs q.ds).zip st.hs).zipIdx.filter fun (((_, rs), _), i) => !rs.isEmpty && !q.stopped.contains i).map
+    fun (((_, rs), rh), i) => "H" ++ toString i ++ ":" ++ ";".intercalate (rs.map (resultStr q.hs i rh))
   " ".intercalate ([subs, "orphans=0"] ++ blocks)
 
 /-! ### the property, evaluated on an observation – written without `handleOne` / `route` / `addHandlerContext` -/
@@ -377,7 +397,7 @@ def monitor (q : Req) (obs : List String) : String := Id.run do
       if (parsed.filter (·.1 == i)).length != 1 then return "violated:routing"
     let mut i := 0
     for h in q.hs do
-      let want := q.ds.filter fun d => d.sub == h.sub && d.topic == h.subTopic
+      let want := if q.stopped.contains i then [] else q.ds.filter fun d => d.sub == h.sub && d.topic == h.subTopic
       let got := match parsed.find? (·.1 == i) with | some (_, ms) => ms | none => []
       if got.length != want.length then return "violated:routing"
       for (d, m) in want.zip got do
